@@ -92,6 +92,10 @@ public:
     template<typename View>
     void apply( const View& view )
     {
+        // The reader may have been copied since its construction (read_image takes it by value):
+        // errors reported by libjpeg from now on must jump into this object's live frames.
+        this->get()->client_data = static_cast< backend_t* >( this );
+
         // Fire exception in case of error.
         if( setjmp( this->_mark ))
         {
@@ -149,6 +153,12 @@ public:
                 break;
             }
             default: { io_error( "Unsupported jpeg color space." ); }
+        }
+
+        // read_rows() re-armed the bookmark inside its own frame, which is gone by now
+        if( setjmp( this->_mark ))
+        {
+            this->raise_error();
         }
 
         jpeg_finish_decompress ( this->get() );
